@@ -65,7 +65,7 @@ Print Assumptions C05_merge_ordered.
 
 Example C05_nonvacuous :
   match api_decode (B "[{""op"":""add"",""path"":""/n"",""value"":2},{""op"":""replace"",""path"":""/b"",""value"":-0},{""op"":""remove"",""path"":""/c""},{""op"":""add"",""path"":""/a"",""value"":1e400}]") with
-  | Some p => api_apply (mkOpts true 0 false false true None) [] p (B "{""z"":12345678901234567890123,""b"":1.0,""c"":0,""a"":1.50}")
+  | Some p => api_apply (mkOpts true 0 false false true [] None) [] p (B "{""z"":12345678901234567890123,""b"":1.0,""c"":0,""a"":1.50}")
               = ROut (B "{""z"":12345678901234567890123,""b"":-0,""a"":1e400,""n"":2}")
   | None => False
   end.
